@@ -21,6 +21,7 @@ import (
 	"github.com/thought-machine/please/src/clean"
 	"github.com/thought-machine/please/src/core"
 	"github.com/thought-machine/please/src/fs"
+	"github.com/thought-machine/please/src/verifhook"
 )
 
 type dirCache struct {
@@ -36,14 +37,18 @@ func (cache *dirCache) Store(target *core.BuildTarget, key []byte, files []strin
 	cacheDir := cache.getPath(target, key, "")
 	tmpDir := cache.getFullPath(target, key, "", "=")
 	cache.markDir(cacheDir, 0)
+	verifhook.Point("dircache.Store.marked")
 	if err := fs.RemoveAll(cacheDir); err != nil {
 		log.Warning("Failed to remove existing cache directory %s: %s", cacheDir, err)
 		return
 	}
+	verifhook.Point("dircache.Store.removedOld")
 	cache.storeFiles(target, key, "", cacheDir, tmpDir, files, true)
+	verifhook.Point("dircache.Store.beforeRename")
 	if err := os.Rename(tmpDir, cacheDir); err != nil && !os.IsNotExist(err) {
 		log.Warning("Failed to create cache directory %s: %s", cacheDir, err)
 	}
+	verifhook.Point("dircache.Store.renamed")
 }
 
 // storeFiles stores the given files in the cache, either compressed or not.
@@ -85,6 +90,7 @@ func (cache *dirCache) storeCompressed2(target *core.BuildTarget, filename strin
 	if err != nil {
 		return err
 	}
+	verifhook.Point("dircache.tar.created")
 	defer f.Close()
 	bw := bufio.NewWriter(f)
 	defer bw.Flush()
@@ -101,7 +107,7 @@ func (cache *dirCache) storeCompressed2(target *core.BuildTarget, filename strin
 				return err
 			} else if err := tw.WriteHeader(hdr); err != nil {
 				return err
-			} else if hdr.Typeflag != tar.TypeDir && hdr.Typeflag != tar.TypeSymlink {
+			} else if verifhook.Point("dircache.tar.header"); hdr.Typeflag != tar.TypeDir && hdr.Typeflag != tar.TypeSymlink {
 				f, err := os.Open(name)
 				if err != nil {
 					return err
@@ -167,6 +173,7 @@ func (cache *dirCache) storeFile(target *core.BuildTarget, out, cacheDir string)
 		log.Warning("Failed to setup cache directory: %s", err)
 		return 0
 	}
+	verifhook.Point("dircache.storeFile.ready")
 	if err := fs.RecursiveLink(outFile, cachedFile); err != nil {
 		// Cannot hardlink files into the cache, must copy them for reals.
 		log.Warning("Failed to store cache file %s: %s", cachedFile, err)
